@@ -38,10 +38,12 @@ class Ev:
         self.uid = None
 
     def is_read(self):
-        return self.kind in ("R", "U")
+        # NR / NW: non-atomic accesses (order "NA"): they take part in rf / coherence like relaxed accesses - on a
+        # race-free execution a non-atomic read returns the hb-latest write - and are checked for races separately
+        return self.kind in ("R", "U", "NR")
 
     def is_write(self):
-        return self.kind in ("W", "U")
+        return self.kind in ("W", "U", "NW")
 
     def __repr__(self):
         return f"T{self.tid}.{self.idx}:{self.kind}{'' if self.loc is None else '[' + str(self.loc) + ']'}{self.order or ''}{(' ' + self.label) if self.label else ''}"
@@ -56,7 +58,9 @@ def _dom(it, a, v):
     write of the client program satisfies, so that thread-local exploration does not fork on unreachable values)"""
     d = it.env.get("load_domain")
     if d:
-        d(it, a.meta["loc"], v)
+        r = d(it, a.meta["loc"], v)
+        if r is not None:
+            return r   # the hook concretised the read (forking over the location's value set)
     return v
 
 
@@ -93,6 +97,7 @@ class ThreadRecorder:
 def install_models(M):
     """atomic models for E3 runs (override the sequential ones)"""
     nloc = [0]
+    M.e3_nloc = nloc   # shared location counter (non-atomic cells registered by a property's own models use it too)
 
     def a_new(it, cal, args):
         a = Agg("Atomic", [args[0]], meta={"loc": nloc[0]})
